@@ -138,7 +138,7 @@ where YI: yaserde::YaSerialize + restrictions::CheckRestrictions, YO: yaserde::Y
 '''
 
 
-def search(repo):
+def _search(repo):
     import os
     from ..replay import scratch_repo
     root = scratch_repo(repo)
@@ -161,3 +161,14 @@ def search(repo):
     if res['exchanges'] == 0:
         res['error'] = outp[-2500:]
     return res
+
+
+_MEMO = {}
+
+
+def search(repo, *a, **kw):
+    """one run of the harness per check process and tree (the result is shared by all obligations it decides)"""
+    key = (repo, a, tuple(sorted(kw.items())))
+    if key not in _MEMO:
+        _MEMO[key] = _search(repo, *a, **kw)
+    return _MEMO[key]
